@@ -51,15 +51,20 @@ func Install(f *Faults) { faults = f }
 //go:norace
 func Current() *Faults { return faults }
 
+// UseDefaults: the next databases are opened with Badger's own defaults (cases whose subject is
+// how much one Badger transaction takes: that limit is derived from the memtable size).
+var UseDefaults bool
+
 // DefaultOptions: Badger's defaults, except that (unless VERIF_BADGER_DEFAULT=1) the memtable,
 // value-log file and block cache are sized for a database of a few hundred small records. This
-// only changes how much memory and tmpfs Badger maps at Open (30 ms -> 9 ms per world); it has
-// no bearing on what fs_db asks of Badger.
+// only changes how much memory and tmpfs Badger maps at Open (30 ms -> 9 ms per world); the one
+// thing of fs_db's that depends on it is the size of the largest commit (a Badger transaction takes
+// about 15% of a memtable): cases about large commits set UseDefaults.
 //
 //go:norace
 func DefaultOptions(path string) Options {
 	o := badger.DefaultOptions(path)
-	if os.Getenv("VERIF_BADGER_DEFAULT") == "1" {
+	if os.Getenv("VERIF_BADGER_DEFAULT") == "1" || UseDefaults {
 		return o
 	}
 	return o.WithMemTableSize(8 << 20).WithValueLogFileSize(4 << 20).WithBlockCacheSize(1 << 20).WithNumMemtables(2).WithNumCompactors(2)
